@@ -207,12 +207,46 @@ def warmup(tier):
         gen_hed.pool(v)
 
 
+# ------------------------------------------------------------------------------------------------------------
+# permitted extensions whose name merely begins like a unique tag's name
+def make_lookalike_enum(versions):
+    def enum(shard, nshards):
+        def gen():
+            for v in versions:
+                m = xmlschema.model(hedenv.xml_path(v))
+                pl = gen_hed.pool(v)
+                hosts = [n.short for n in pl.extendable][:2]
+                for n in m.nodes:
+                    if "unique" in n.attrs and "/" in n.long:
+                        # the unique tag's own parent (its long form then begins with the unique tag's long form)
+                        for host in [n.long.split("/")[-2]] + hosts:
+                            for tail in ("s", "A", "-2"):
+                                yield (v, n.short, host, tail)
+        return itertools.islice(gen(), shard, None, nshards)
+    return enum
+
+
+def oracle_lookalike(case):
+    from hed.models import HedString
+    v, unique, host, tail = case
+    out = Outcome(nontrivial=True, classes=("lookalike-of:" + unique,))
+    sch = hedenv.schema(v)
+    for text in (f"{host}/{unique}{tail}, {host}/{unique}{tail}x",
+                 f"({unique}, (Sensory-event)), {host}/{unique}{tail}"):
+        errs = sorted({i["code"] for i in HedString(text, sch).validate(allow_placeholders=False) if i["severity"] == 1})
+        if errs:
+            out.bad("valid-annotation-rejected:extension-that-begins-like-a-unique-tag:" + "+".join(errs),
+                    f"{v}: {text!r} -> {errs}")
+    return out
+
+
 def parts(tier):
     versions = QUICK if tier == "quick" else ALL
     nv, nm = (1500, 4000) if tier == "quick" else (120000, 200000)
     sweep_versions = ["8.3.0"] if tier == "quick" else ALL
     return [Part("valid", oracle_valid, strategy=valid_strategy(versions), n=nv),
             Part("mutated", oracle_mutated, strategy=mutated_strategy(versions), n=nm),
+            Part("lookalike-extensions", oracle_lookalike, enumerate_fn=make_lookalike_enum(versions), exhaustive=True),
             Part("sweep", oracle_sweep, enumerate_fn=make_sweep(sweep_versions), exhaustive=True)]
 
 
